@@ -1405,10 +1405,12 @@ fn run_encoding_impl(cfg: &ScenCfg, out: &mut RunOut, rtu: bool) {
             }
         }
     };
+    let mut window = usize::MAX;
     if cfg.faults {
         if let Some(p) = &peer {
             // flow control: the peer's window is small, writes complete in pieces
-            p.set_capacity(64 + choose(300) as usize);
+            window = if chance(1, 3) { 5 + choose(20) as usize } else { 64 + choose(300) as usize };
+            p.set_capacity(window);
         }
     }
     let max_frame = if rtu { 256 } else { 260 };
@@ -1447,7 +1449,16 @@ fn run_encoding_impl(cfg: &ScenCfg, out: &mut RunOut, rtu: bool) {
         submit(rig.channel.as_ref().unwrap(), style, id, &req, unit, 1000 * MS, &rig.comps);
         // with a small window the frame leaves in pieces: keep draining
         let mut got = Vec::new();
-        for _ in 0..40 {
+        let blocks = count <= 65535 && pdu::within_limits(&req) && pdu::encode_req(&req).len() + 7 > window;
+        if cfg.faults && peer.is_some() && blocks && chance(1, 3) {
+            // the peer stops reading for longer than the response time-out: a write that is
+            // blocked half-way must still end as one whole frame once the window opens
+            kernel::settle();
+            kernel::advance(1500 * MS);
+            kernel::count("fault_peer_stall");
+            out.probe("peer_stalled_past_timeout");
+        }
+        for _ in 0..400 {
             kernel::settle();
             if rtu {
                 // inter-character silence between consecutive frames
